@@ -193,7 +193,6 @@ func EffectivePerms(role, prefix string, unrestricted bool) map[string]bool {
 
 func (w *World) String() string { return fmt.Sprintf("world(%d clients)", len(w.Clients)) }
 
-
 var offerOnce struct {
 	once sync.Once
 	sdp  map[string]string
